@@ -1,10 +1,27 @@
 (* Props/C03.v — C03: decoding is independent of data-chunk framing and of the reader used.
    Reader half (this file, growing): the slice parser and the stream parser are the same function
    on ALL byte strings (valid, corrupted, truncated). *)
-From PNA Require Import Base Crc32 Chunk BaseFacts ChunkFacts.
+From PNA Require Import Base Crc32 Codec Chunk Archive Entry BaseFacts ChunkFacts ArchiveFacts EntryFacts.
 Open Scope N_scope.
 
 Theorem C03_chunk_parsers_agree : forall bs, read_chunk_slice bs = read_chunk_stream bs.
 Proof. exact read_chunk_slice_eq. Qed.
 Check C03_chunk_parsers_agree : forall bs, read_chunk_slice bs = read_chunk_stream bs.
 Print Assumptions C03_chunk_parsers_agree.
+
+(* hence the raw-entry readers, the chunk iterators, the structured-entry readers and the part
+   chains return the same entries, contents and success or failure on EVERY input *)
+Theorem C03_stream_slice_agree :
+  forall bs, raw_entries read_chunk_slice bs = raw_entries read_chunk_stream bs /\ chunks_slice bs = chunks_stream bs.
+Proof. exact stream_slice_agree. Qed.
+Print Assumptions C03_stream_slice_agree.
+
+Theorem C03_entries_stream_slice_agree :
+  forall bs, entries read_chunk_slice bs = entries read_chunk_stream bs.
+Proof. exact entries_stream_slice_agree. Qed.
+Print Assumptions C03_entries_stream_slice_agree.
+
+Theorem C03_parts_stream_slice_agree :
+  forall parts, read_parts read_chunk_slice parts = read_parts read_chunk_stream parts.
+Proof. exact stream_slice_agree_parts. Qed.
+Print Assumptions C03_parts_stream_slice_agree.
